@@ -80,6 +80,10 @@ type c12Case struct {
 	// second restart cycle (restart timer, long-lived window) must run like the first
 	SecondCycle bool `json:"second_cycle"`
 	OtherSub9   bool `json:"other_sub9"` // the non-Cease NOTIFICATION carries subcode 9 (3/9), the number Hard Reset has under Cease
+	// Rival: indexes of routes that a third peer V (no graceful restart, session stays up) announces as well, with a
+	// longer AS_PATH: R's route is preferred while it is fresh or merely stale, V's as soon as R's is LLGR-stale
+	// ("least preferred") or gone
+	Rival []int `json:"rival,omitempty"`
 }
 
 func drawC12(t *rapid.T) c12Case {
@@ -102,6 +106,13 @@ func drawC12(t *rapid.T) c12Case {
 		}
 		seen[k] = true
 		c.Routes = append(c.Routes, r)
+	}
+	if rapid.Bool().Draw(t, "rivals") {
+		for i := range c.Routes {
+			if rapid.IntRange(0, 1).Draw(t, fmt.Sprintf("rival%d", i)) == 0 {
+				c.Rival = append(c.Rival, i)
+			}
+		}
 	}
 	// (the server accepts a new connection only after its idle hold time of 5 s)
 	c.OtherSub9 = rapid.Bool().Draw(t, "other_sub9")
@@ -222,6 +233,9 @@ type c12Run struct {
 	log   []string
 	t0    time.Duration // instant of the loss
 	st    *verifkit.Stats
+	v     rsPeer
+	vsess *simSess
+	rival map[int]bool
 }
 
 func (x *c12Run) logf(f string, a ...any) {
@@ -286,8 +300,12 @@ func (x *c12Run) verify(m *c12Model, when string) *verifkit.Failure {
 	x.n.settle()
 	type got struct{ stale, llgr bool }
 	loc := map[string]got{}
+	best := map[string]string{}
 	for _, fam := range []bgp.Family{bgp.RF_IPv4_UC, bgp.RF_IPv6_UC} {
 		_ = x.n.s.ListPath(apiutil.ListPathRequest{TableType: api.TableType_TABLE_TYPE_GLOBAL, Family: fam}, func(prefix bgp.NLRI, paths []*apiutil.Path) {
+			if len(paths) > 0 {
+				best[prefix.String()] = paths[0].PeerAddress.String()
+			}
 			for _, pa := range paths {
 				if pa.PeerAddress.String() != x.r.Addr {
 					continue
@@ -324,6 +342,15 @@ func (x *c12Run) verify(m *c12Model, when string) *verifkit.Failure {
 		case s.present && (g.llgr != s.llgr):
 			return x.fail("llgr-community", "%s: %s carries LLGR_STALE=%v, must be %v", when, p, g.llgr, s.llgr)
 		}
+		if x.rival[i] {
+			wantBest := x.v.Addr
+			if s.present && !s.llgr {
+				wantBest = x.r.Addr
+			}
+			if best[p] != wantBest {
+				return x.fail("llgr-preference", "%s: the best path of %s is the one from %s, must be the one from %s (R's route present=%v stale=%v llgr-stale=%v; V announces it with a longer AS_PATH)", when, p, best[p], wantBest, s.present, s.stale, s.llgr)
+			}
+		}
 	}
 	// observers
 	for oi := range x.obs {
@@ -340,7 +367,22 @@ func (x *c12Run) verify(m *c12Model, when string) *verifkit.Failure {
 			s := m.routes[i]
 			p := c12Prefix(r)
 			wantHeld := s.present && (!s.llgr || oi == 1)
+			fromV := false
+			if x.rival[i] {
+				wantHeld, fromV = true, !s.present || s.llgr
+			}
 			e, ok := held[p]
+			if ok && x.rival[i] {
+				isV := false
+				for _, cv := range e.Attrs.Comms {
+					if cv == uint32(0x20000+i) {
+						isV = true
+					}
+				}
+				if isV != fromV {
+					return x.fail("observer-llgr-preference", "%s: observer %d holds %s from V=%v, must be from V=%v (R's route present=%v stale=%v llgr-stale=%v)", when, oi, p, isV, fromV, s.present, s.stale, s.llgr)
+				}
+			}
 			if wantHeld != ok {
 				return x.fail("observer-view", "%s: observer %d (LLGR-capable=%v) holds %s = %v, must be %v (route present=%v stale=%v llgr-stale=%v)", when, oi, oi == 1, p, ok, wantHeld, s.present, s.stale, s.llgr)
 			}
@@ -351,7 +393,7 @@ func (x *c12Run) verify(m *c12Model, when string) *verifkit.Failure {
 						has = true
 					}
 				}
-				if has != s.llgr {
+				if has != (s.llgr && !fromV) {
 					return x.fail("observer-llgr-community", "%s: observer 1 holds %s with LLGR_STALE=%v, must be %v", when, p, has, s.llgr)
 				}
 			}
@@ -377,6 +419,12 @@ func runC12(t *testing.T) func(c c12Case, st *verifkit.Stats) *verifkit.Failure 
 			x.obs = [2]rsPeer{{Addr: "10.0.0.8", ID: "10.0.0.8", Kind: rsEBGP, AS: 65008}, {Addr: "10.0.0.9", ID: "10.0.0.9", Kind: rsEBGP, AS: 65009}}
 			if err := n.s.AddPeer(ctx, &api.AddPeerRequest{Peer: x.apiPeerR()}); err != nil {
 				return verifkit.Failf("addpeer", "%v", err)
+			}
+			x.v = rsPeer{Addr: "10.0.0.4", ID: "10.0.0.4", Kind: rsEBGP, AS: 65004}
+			if len(c.Rival) > 0 {
+				if err := n.s.AddPeer(ctx, &api.AddPeerRequest{Peer: rsApiPeer(rsGlobal{}, &x.v)}); err != nil {
+					return verifkit.Failf("addpeer", "%v", err)
+				}
 			}
 			for oi := range x.obs {
 				ap := rsApiPeer(rsGlobal{}, &x.obs[oi])
@@ -413,6 +461,22 @@ func runC12(t *testing.T) func(c c12Case, st *verifkit.Stats) *verifkit.Failure 
 			for i := range c.Routes {
 				x.announce(i)
 				m.routes[i].present = true
+			}
+			x.rival = map[int]bool{}
+			if len(c.Rival) > 0 {
+				if x.vsess, _, err = n.establish(x.v.def(), rsOpenSpec(&x.v)); err != nil {
+					return verifkit.Failf("establish", "V: %v", err)
+				}
+				for _, i := range c.Rival {
+					r := c.Routes[i]
+					a := rsAttrs{MED: -1, LocalPref: -1, NextHop: "192.0.2.4", ASPath: []rsSeg{{T: 2, AS: []uint32{x.v.AS, 64999, 64998}}}, Comms: []uint32{uint32(0x20000 + i)}}
+					if r.V6 {
+						a.NextHop = "2001:db8::4"
+					}
+					_ = x.vsess.send(rsAnnounce(&x.v, r.V6, r.Prefix, 0, a), rsTxOpt(&x.v))
+					x.rival[i] = true
+				}
+				st.Label("rival-source")
 			}
 			// End-of-RIB of the first session
 			_ = x.sess.send(bgp.NewEndOfRib(bgp.RF_IPv4_UC), rsTxOpt(&x.r))
